@@ -27,11 +27,15 @@ def specs():
     # the same geometry as "views" with the names of two zones exchanged (anything remembered per grid across specs shows up)
     S4 = ArchSpec(layout=Layout({"traps": aux, "left": right, "right": left, "aux": traps}, {"left"}, {"traps"}, {"traps"},
                                 special_grid={"park": Grid.from_positions([-4.0, -2.0], [0.5, 1.5])}))
-    return {"plain": (S1, ["traps", "aux"]), "views": (S2, ["traps", "left", "right", "aux"]), "late": (S3, ["traps", "left", "right", "aux"]),
+    # zones that are FILLED grids (known vacancies): a view of such a zone must not show the coordinate of a vacant trap
+    from bloqade.shuttle.dialects.filled.types import FilledGrid
+    mem = FilledGrid.vacate(Grid.from_positions([0.0, 2.0, 4.5], [0.0, 3.0, 7.0]), [(1, 0), (0, 1), (2, 2)])
+    S5 = ArchSpec(layout=Layout({"mem": mem, "aux": aux}, {"mem"}, {"mem"}, {"aux"}, special_grid={"park": Grid.from_positions([-4.0, -2.0], [0.5, 1.5])}))
+    return {"filled": (S5, ["mem", "aux"]), "plain": (S1, ["traps", "aux"]), "views": (S2, ["traps", "left", "right", "aux"]), "late": (S3, ["traps", "left", "right", "aux"]),
             "views-renamed": (S4, ["traps", "left", "right", "aux"])}
 
 
-ZSHAPE = {"traps": (4, 3), "aux": (3, 4), "left": (2, 3), "right": (2, 3)}
+ZSHAPE = {"traps": (4, 3), "aux": (3, 4), "left": (2, 3), "right": (2, 3), "mem": (3, 3)}
 
 
 def rep_list(rng, n):
@@ -330,7 +334,9 @@ def run(ctx):
             nx, ny = shapes[zname]
             allx, ally = str(list(range(nx))), str(list(range(ny)))
             views = [f"grid.sub_grid({{z}}, {allx}, [0])", f"grid.sub_grid({{z}}, [0], {ally})", "{z}[:, 0:1]", "{z}[0:1, :]",
-                     f"grid.sub_grid({{z}}, {allx}, {ally})", f"grid.sub_grid({{z}}, {allx}, {str([0] * ny)})", f"grid.sub_grid({{z}}, {str([0] * nx)}, {ally})"]
+                     f"grid.sub_grid({{z}}, {allx}, {ally})", f"grid.sub_grid({{z}}, {allx}, {str([0] * ny)})", f"grid.sub_grid({{z}}, {str([0] * nx)}, {ally})",
+                     f"grid.sub_grid({{z}}, {str(sorted(list(range(nx)) + [min(1, nx - 1)]))}, {ally})", f"grid.sub_grid({{z}}, {allx}, {str(sorted(list(range(ny)) + [min(1, ny - 1)]))})",
+                     f"grid.sub_grid({{z}}, {str([min(1, nx - 1)] * 2 + [nx - 1])}, {str([0, 0] + [ny - 1] * 2)})"]
             for t in TRANSFORMS + views:
                 src = ("@move{DEC}\ndef main(c: bool):\n" + f'    z1 = spec.get_static_trap(zone_id="{zname}")\n    u2 = {t.format(z="z1")}\n'
                        "    v3 = u2[0:1, 0:1]\n    w4 = grid.sub_grid(u2, [0], [0])\n"
